@@ -81,6 +81,14 @@ def clang_check(path):
     return p.returncode, errs
 
 
+def bkey(g, name, backend, kind, default):
+    """Descriptions of the borderline group are ill-formed by the reference, one defect each: when /repo accepts one and
+    the emitted code fails a witness, the root cause is that accepted defect, so the key names the entry."""
+    if g.entry(name)["group"] == "borderline":
+        return f"C10|accepted-ill-formed|{name[2:]}|{backend}|{kind}"
+    return default
+
+
 def run(rep, tier, seed):
     g = rc.gen(tier, seed)
     n = {"descriptions": 0, "rust_modules": 0, "python_modules": 0, "cxx_modules": 0, "rules": 0}
@@ -93,7 +101,8 @@ def run(rep, tier, seed):
         for stage in ("parse", "analyze", "json", "rust", "python", "cxx"):
             v = st.get(stage)
             if isinstance(v, dict) and "panic" in v:
-                rep.add(f"C10|{stage}|panic|{panic_class(v['panic'])}", f"{stage} panicked on {name}: {v['panic'][:160]}",
+                rep.add(bkey(g, name, stage, "panic", f"C10|{stage}|panic|{panic_class(v['panic'])}"),
+                        f"{stage} panicked on {name}: {v['panic'][:160]}",
                         f"{name}.pdl", {"description": g.text(name)[:600]})
         if grp in ("fixed", "generated") and isinstance(st.get("analyze"), dict) and "errors" in st["analyze"]:
             codes = [e.get("code") for e in st["analyze"]["errors"]]
@@ -111,7 +120,8 @@ def run(rep, tier, seed):
     for mod, errs in by_mod.items():
         for e in errs:
             role = rust_role(g, mod, e["line"])
-            rep.add(f"C10|rust|compile|{e['code']}|{role}", f"emitted Rust does not compile: {e['code']} {e['message'][:140]}",
+            rep.add(bkey(g, mod, "rust", "compile", f"C10|rust|compile|{e['code']}|{role}") if mod in g.status else
+                    f"C10|rust|compile|{e['code']}|{role}", f"emitted Rust does not compile: {e['code']} {e['message'][:140]}",
                     f"{mod}.rs:{e['line']}")
     if h["rc"] != 0 and not h["errors"]:
         rep.add("C10|rust|harness-failed", "the harness crate failed to build: " + h["stderr"][-300:], "harness")
@@ -125,13 +135,15 @@ def run(rep, tier, seed):
         try:
             missing = py_undefined_names(src)
         except SyntaxError as e:
-            rep.add("C10|python|syntax", f"emitted Python does not parse: {e.msg}", f"{name}.py:{e.lineno}")
+            rep.add(bkey(g, name, "python", "syntax", "C10|python|syntax"), f"emitted Python does not parse: {e.msg}",
+                    f"{name}.py:{e.lineno}")
             continue
         customs = user_types(g, name)
         for nm, line in missing[:5]:
             if nm in customs:
                 continue        # user-supplied custom_field / checksum type (imported when a location is given)
-            rep.add(f"C10|python|undefined-name|{nm}", f"emitted Python uses unbound name {nm}", f"{name}.py:{line}")
+            rep.add(bkey(g, name, "python", "undefined-name", f"C10|python|undefined-name|{nm}"),
+                    f"emitted Python uses unbound name {nm}", f"{name}.py:{line}")
     samples.append({"witness": "python ast.parse + name binding", "modules": n["python_modules"]})
     # 4. C++
     cxx = [name for name in g.names() if g.ok(name, "cxx")]
@@ -152,7 +164,8 @@ def run(rep, tier, seed):
             if key in seen:
                 continue
             seen.add(key)
-            rep.add(f"C10|cxx|compile|{key}", f"emitted C++ does not compile: {msg[:140]}", f"{nm}.h")
+            rep.add(bkey(g, nm, "cxx", "compile", f"C10|cxx|compile|{key}"), f"emitted C++ does not compile: {msg[:140]}",
+                    f"{nm}.h")
         if rc_ != 0 and not errs:
             rep.add("C10|cxx|clang-failed", "clang failed without an error line", f"{nm}.h")
     samples.append({"witness": "clang++ -fsyntax-only", "modules": len(cxx)})
